@@ -15,10 +15,11 @@ ASSUMPTIONS = ["argparse converts --until with int() and parser.error exits with
 
 
 def rule_window(ctx):
-    ctx.res.minimum("O7.1", 3)
+    ctx.res.minimum("O7.1", 4)
     protocol.reader_rows_table(ctx, "O7.1", {"window"}, "Reader.rows")
     protocol.reader_rows_table(ctx, "O7.1", {"window"}, "rows()")
     protocol.reader_rows_table(ctx, "O7.1", {"window"}, "validate()")
+    protocol.reader_rows_table(ctx, "O7.1", {"window"}, "validate_rows")
 
 
 def rule_until(ctx):
